@@ -32,6 +32,7 @@ def check(ctx: Ctx, rep: Report):
     rep.rule("C16.R2", "every id listed by sensors() of ET/DT can be decoded by read_value (no NotImplementedError)", 250)
     rep.rule("C16.R3", "the id cache follows the capability set: writers of sensors()' dependencies invalidate _sensors_map", 4)
     rep.rule("C16.R4", "single and bulk paths use the same decoder summary", 250)
+    rep.rule("C16.R5", "an id listed twice by sensors() resolves to the same definition on both paths (bulk: last one stored; single lookup must be last-wins too)", 2)
     prog = ctx.prog
     tabs, dec = tables_ctx(ctx), decoders_ctx(ctx)
     # ---- count expression of _read_sensor / _read_setting
@@ -91,6 +92,69 @@ def check(ctx: Ctx, rep: Report):
     rep.check(ok, "C16.R4", "es-read-sensor", rs.loc() if rs else es.module.relpath, "ES.read_sensor returns the bulk value",
               bad="ES.read_sensor no longer returns the value of read_runtime_data()")
     r3(ctx, rep)
+    r5(ctx, rep, tabs)
+
+
+def lookup_semantics(ctx: Ctx, gs) -> str:
+    """'last' when _get_sensor answers from a dict built by a comprehension over self.sensors() keyed by id_ (later
+    definitions replace earlier ones - the same as _map_response storing results in table order), 'first' for a
+    first-match search, 'unknown' otherwise."""
+    from ..astutil import returned_values, single_assignments
+    local = single_assignments(gs.node)
+    attr_vals = {}
+    for n in ast.walk(gs.node):
+        if isinstance(n, ast.Assign):
+            for a, v, _ in self_store(n):
+                attr_vals.setdefault(a, []).append(v)
+    if any(isinstance(n, (ast.For, ast.AsyncFor)) and any(isinstance(x, ast.Return) for x in ast.walk(n)) for n in ast.walk(gs.node)):
+        return "first"
+    kinds = set()
+    for v in returned_values(gs.node):
+        if isinstance(v, ast.Call) and isinstance(v.func, ast.Name) and v.func.id == "next" and v.args and isinstance(v.args[0], ast.GeneratorExp):
+            kinds.add("first")
+            continue
+        if isinstance(v, ast.Call) and isinstance(v.func, ast.Attribute) and v.func.attr == "get":
+            recv = v.func.value
+            cands = []
+            if isinstance(recv, ast.Name) and recv.id in local:
+                cands = [local[recv.id]]
+            elif isinstance(recv, ast.Attribute) and isinstance(recv.value, ast.Name) and recv.value.id == "self":
+                cands = attr_vals.get(recv.attr, [])
+            elif isinstance(recv, ast.DictComp):
+                cands = [recv]
+            ok = bool(cands) and all(isinstance(c, ast.DictComp) and len(c.generators) == 1 and isinstance(c.key, ast.Attribute) and c.key.attr == "id_"
+                                      and norm(c.value) == norm(c.generators[0].target) and not c.generators[0].ifs
+                                      and (call_chain(c.generators[0].iter) or ()) == ("self", "sensors") for c in cands)
+            kinds.add("last" if ok else "unknown")
+            continue
+        kinds.add("unknown")
+    return kinds.pop() if len(kinds) == 1 else "unknown"
+
+
+def r5(ctx: Ctx, rep: Report, tabs):
+    prog = ctx.prog
+    for famname in ("ET", "DT"):
+        ci = prog.cls(famname)
+        gs = ci.methods.get("_get_sensor")
+        seen = {}
+        dups = []
+        for (f, attr), rows in tabs.tables.items():
+            if f != famname or tabs.is_settings_table(attr):
+                continue
+            for r in rows:
+                if r.id_ in seen and (seen[r.id_].cls is not r.cls or seen[r.id_].offset != r.offset):
+                    dups.append((seen[r.id_], r))
+                seen[r.id_] = r
+        sem = lookup_semantics(ctx, gs)
+        if not dups:
+            rep.ok("C16.R5", "dup-lookup:%s" % famname, gs.loc(), "%s lists no id twice" % famname)
+            continue
+        a, b = dups[0]
+        rep.check(sem == "last", "C16.R5", "dup-lookup:%s" % famname, gs.loc(),
+                  "%s lists %d id(s) twice (e.g. '%s': %s@%s and %s@%s); bulk decoding keeps the last definition and so does _get_sensor" % (
+                      famname, len(dups), b.id_, a.cls.name, a.offset, b.cls.name, b.offset),
+                  bad="%s lists '%s' twice (%s@%s at %s and %s@%s at %s): read_runtime_data() stores the value of the last definition, but _get_sensor resolves the id by a %s lookup, so read_sensor('%s') decodes other registers than the bulk read" % (
+                      famname, b.id_, a.cls.name, a.offset, a.where(), b.cls.name, b.offset, b.where(), "first-match" if sem == "first" else "not understood", b.id_))
 
 
 def count_form(ctx: Ctx, fn):
